@@ -29,7 +29,7 @@ use std::time::Duration;
 pub static INFO: PropInfo = PropInfo {
     id: "C05",
     level: "exploration",
-    rule: "one evaluation = one run against a fresh secure server (plus a second server instance with the same key, protocol id and address for stale challenges): honest NetcodeClient handshakes and hand-driven handshakes, then the scripted attacker repertoire (tokens presented at server times floor(t) = expire-1 / expire / expire+1; every single-field corruption of the request: version, protocol id, expiry, nonce, sealed token head / middle / MAC, zeroed token, plus sampled single-bit flips; tokens sealed under a foreign key, for a foreign protocol id (public field and / or sealed AAD), listing only foreign hosts; a token replayed from a second address before and after the first address completed; responses from an unknown address and from an address half-open for another token; challenges cross-used between sessions the attacker owns, including two tokens with the same client id and different user data; challenges of the other server instance; corrupted challenges; observed honest datagrams replayed from other addresses), then 40..160 seeded random request / response / time-advance / disconnect operations over all tokens, addresses and collected challenges. Every ClientConnected is judged against the token ledger (who was minted what, which request came from where at which server time) and the challenge ledger (which blob this server issued in answer to a request of which client id; blobs are recovered by opening replies with the token's server-to-client key). Non-trivial = at least one honest connect and at least 10 refused attack attempts in the run; distinct = distinct fingerprints of the (operation, result kind) history.",
+    rule: "one evaluation = one run against a fresh secure server (plus a second server instance with the same key, protocol id and address for stale challenges): honest NetcodeClient handshakes and hand-driven handshakes, then the scripted attacker repertoire (tokens presented at server times floor(t) = expire-1 / expire / expire+1; every single-field corruption of the request: version, protocol id, expiry, nonce, sealed token head / middle / MAC, zeroed token, plus sampled single-bit flips; tokens sealed under a foreign key, for a foreign protocol id (public field and / or sealed AAD), listing only foreign hosts; a token replayed from a second address before and after the first address completed; responses from an unknown address and from an address half-open for another token; challenges cross-used between sessions the attacker owns, including two tokens with the same client id and different user data; challenges of the other server instance; corrupted challenges; observed honest datagrams replayed from other addresses; a response delivered after the server clock passed the token's expiry in one step or in sub-second steps of 1..999 ms), then 40..160 seeded random request / response / time-advance / disconnect operations over all tokens, addresses and collected challenges. Every ClientConnected is judged against the token ledger (who was minted what, which request came from where at which server time) and the challenge ledger (which blob this server issued in answer to a request of which client id; blobs are recovered by opening replies with the token's server-to-client key). Non-trivial = at least one honest connect and at least 10 refused attack attempts in the run; distinct = distinct fingerprints of the (operation, result kind) history.",
     assumptions: &[
         "AEAD unforgeability assumed; the attacker only uses keys of tokens it was legitimately issued and datagrams it observed",
         "fewer than 2048 distinct tokens per server instance (token-entry table never evicts)",
@@ -54,6 +54,8 @@ pub static INFO: PropInfo = PropInfo {
         ("refused.stale_challenge_other_instance", 50),
         ("refused.corrupt_challenge", 100),
         ("refused.observed_replay", 50),
+        ("late_response_ignored", 50),
+        ("late_response_subsecond_steps", 30),
     ],
     engines_quick: &["e1"],
     engines_thorough: &["e1"],
@@ -278,7 +280,7 @@ fn deliver(w: &mut World, ctx: &Ctx, out: &mut Outcome, si: usize, from: SocketA
 }
 
 #[allow(clippy::too_many_arguments)]
-fn judge(w: &World, si: usize, from: SocketAddr, _now: Duration, id: u64, addr: SocketAddr, ud: &[u8; 256], resp: Option<&Blob>) -> Option<(String, String)> {
+fn judge(w: &World, si: usize, from: SocketAddr, now: Duration, id: u64, addr: SocketAddr, ud: &[u8; 256], resp: Option<&Blob>) -> Option<(String, String)> {
     if addr != from {
         return Some(("C05/connected/addr-not-sender".into(), format!("ClientConnected names {} but the datagram came from {}", a(addr), a(from))));
     }
@@ -326,6 +328,10 @@ fn judge(w: &World, si: usize, from: SocketAddr, _now: Duration, id: u64, addr: 
                 (2, "C05/connected/token-not-presented-from-address".into(), format!("client {} connected at {} but token #{} (same id and user data) was never presented from there", id, a(addr), ti))
             } else if !from_addr.iter().any(|p| p.1.as_secs() < t.m.expire) {
                 (3, "C05/connected/expired-token".into(), format!("token #{} (expire {}) was presented from {} only at server seconds {:?}", ti, t.m.expire, a(addr), from_addr.iter().map(|p| p.1.as_secs()).collect::<Vec<_>>()))
+            } else if now.as_secs() > t.m.expire {
+                // half-open sessions end when their token expires (the server drops them at the first update at which
+                // floor(t) > expire), so a late response cannot turn an expired token into a connection
+                (3, "C05/connected/expired-token-at-response".into(), format!("token #{} expired at {} but its response connected at server second {}", ti, t.m.expire, now.as_secs()))
             } else if w.first_presented.get(&(si, ti)) != Some(&addr) && w.first_answered.get(&(si, ti)) != Some(&addr) {
                 (4, "C05/connected/token-used-from-other-address".into(), format!("token #{} was first used from {:?}, now connected from {}", ti, w.first_presented.get(&(si, ti)).map(|x| a(*x)), a(addr)))
             } else {
@@ -737,8 +743,19 @@ pub fn one_run(ctx: &Ctx, out: &mut Outcome, run_seed: u64) {
                 let t = w.mint(&mut r, id, e, None, None, None, None);
                 let x = w.fresh_addr(&mut r);
                 if let Some(b) = request(&mut w, ctx, out, 0, t, x, "request-short-lived") {
-                    w.srv[0].update(Duration::from_millis(2100));
-                    w.srv[1].update(Duration::from_millis(2100));
+                    // the clock passes the expiry in one step or in many sub-second steps (frame-sized updates)
+                    let step = *r.pick(&[2100u64, 1050, 700, 100, 16, 999, 1]);
+                    let mut left = 2100u64;
+                    while left > 0 {
+                        let d = step.min(left);
+                        w.srv[0].update(Duration::from_millis(d));
+                        w.srv[1].update(Duration::from_millis(d));
+                        left -= d;
+                    }
+                    w.hist.push(format!("srv update 2100 ms in steps of {} ms", step));
+                    if step < 1000 {
+                        out.count("late_response_subsecond_steps");
+                    }
                     let c = respond(&mut w, ctx, out, 0, x, t, &b, "response-after-pending-expired");
                     if !c {
                         out.count("late_response_ignored");
@@ -796,7 +813,7 @@ pub fn one_run(ctx: &Ctx, out: &mut Outcome, run_seed: u64) {
                 out.count("random.response");
             }
             8 => {
-                let ms = *r.pick(&[10u64, 300, 1000, 2500]);
+                let ms = *r.pick(&[10u64, 16, 100, 300, 300, 999, 1000, 2500]);
                 w.srv[0].update(Duration::from_millis(ms));
                 w.hist.push(format!("srv0 update({} ms)", ms));
             }
